@@ -464,6 +464,83 @@ def r6_read_diamond(ctx, prog, rule_id='C06.R6'):
                 r.ok(f['qname'], site, '%d abstract states' % len(hits), file=f['file'], line=line)
 
 
+# attribute types whose stored kind is not a byte string, with the reason (a read of such an attribute is no byte read)
+NOT_BYTE_STRINGS = {
+    'CKA_WRAP_TEMPLATE': 'attribute map (P11AttrWrapTemplate stores a std::map; its entries are kept in clear)',
+    'CKA_UNWRAP_TEMPLATE': 'attribute map (P11AttrUnwrapTemplate)',
+    'CKA_ALLOWED_MECHANISMS': 'mechanism-type set (P11AttrAllowedMechanisms)',
+}
+PRIV_ATOM = re.compile(r'(is|was)\w*Private\w*|getBooleanValue(@\d+)?\(.+,CKA_PRIVATE,\w+\)')
+
+
+def r6b_attribute_reads(ctx, prog, rule_id='C06.R6b'):
+    """The generic twin of R6: code that fetches an attribute of *any* type with OSObject::getAttribute(type) (search, C_GetAttributeValue, C_CopyObject, the wrap-template
+    comparison) gets ciphertext when the attribute is a byte string of a private object.  Its bytes are read plain only where the object is known public, the attribute known
+    not to be a byte string, or empty; they are handed to Token::decrypt only where the object is known private."""
+    r = ctx.rule(rule_id, 'the bytes of an attribute fetched by type are decrypted exactly when its object is private', floor=8, engine='E2 (diamond over the privacy flag, the attribute kind and emptiness)')
+    consts = {macro(prog, n): n for n in NOT_BYTE_STRINGS}
+    for f in sorted(prog.functions.values(), key=lambda f: (f['file'], f['line'])):
+        if not f['file'].endswith(('SoftHSM.cpp', 'P11Attributes.cpp', 'P11Objects.cpp')) or unanalysable(f):
+            continue
+        holders = {}
+        for n in walk(f['body']):
+            if n.get('k') == 'Decl':
+                for d in n['decls']:
+                    i = d.get('init')
+                    while i is not None and i.get('k') in ('Cast', 'Paren', 'Ctor') and (i.get('e') is not None or (i.get('k') == 'Ctor' and len(i.get('args', [])) == 1)):
+                        i = i.get('e') if i.get('e') is not None else i['args'][0]
+                    if i is not None and i.get('k') == 'Call' and short(i.get('callee') or '') == 'getAttribute' and i.get('recv') is not None and i.get('args'):
+                        if tables.const_eval(i['args'][0]) in consts:
+                            continue
+                        holders[d['var']['name']] = i
+        if not holders:
+            continue
+        ctx.analysed(f)
+        parent = {}
+        for n in walk(f['body']):
+            for v in n.values():
+                for c in (v if isinstance(v, list) else [v]):
+                    if isinstance(c, dict):
+                        parent[id(c)] = n
+        reads = {}
+        for c in calls(f['body']):
+            if short(c.get('callee') or '') in ('getByteStringValue', 'peekValue') and c.get('recv') is not None and c['recv'].get('k') == 'Var' and c['recv']['name'] in holders:
+                p1 = parent.get(id(c))
+                kind = 'plain'
+                if p1 is not None and p1.get('k') == 'Call' and short(p1.get('callee') or '') == 'size' and p1.get('recv') is c:
+                    p2 = parent.get(id(p1))
+                    if p2 is not None and p2.get('k') == 'Bin' and p2.get('op') in ('!=', '==', '>') and any(tables.const_eval(x) == 0 for x in (p2.get('a'), p2.get('b')) if x is not None and x is not p1):
+                        continue          # emptiness test, not a read of the bytes
+                if p1 is not None and p1.get('k') == 'Call' and short(p1.get('callee') or '') == 'decrypt' and p1.get('args') and p1['args'][0] is c:
+                    kind = 'decrypting'
+                reads[id(c)] = (c, kind)
+
+        def trig(e, st):
+            return ('read', e['l'], id(e)) if id(e) in reads else None
+        sf = SiteFacts(f, prog, trigger=trig, track_facts=r'^(is|was)\w*Private\w*$|^getBooleanValue(@\d+)?\(.+,CKA_PRIVATE,\w+\)$|^isByteStringAttribute\(.*|^size\(getByteStringValue\(.*').go()
+        r.paths += sf.paths_returned
+        for (_, line, cid), hits in sorted(sf.sites.items()):
+            c, kind = reads[cid]
+            a = c['recv']['name']
+            obj = canon(holders[a]['recv'])
+            site = '%s read of %s (attribute of %s)@%d' % (kind, a, obj, line)
+            bad = None
+            for h in hits:
+                priv = {t for at, t in h['facts'] if PRIV_ATOM.fullmatch(at)}
+                notbytes = any(t is False and at.startswith('isByteStringAttribute(') for at, t in h['facts'])
+                empty = any(t is False and at.startswith('size(getByteStringValue(') for at, t in h['facts'])
+                if kind == 'decrypting' and True not in priv:
+                    bad = (h, 'handed to Token::decrypt on a path where the object is not known to be private')
+                elif kind == 'plain' and not (False in priv or notbytes or empty):
+                    bad = (h, 'read as stored on a path where the object is not known to be public (nor the attribute known not to be a byte string, or empty): for a private object these bytes are ciphertext')
+                if bad:
+                    break
+            if bad:
+                r.violation(f['qname'], site, 'the value of %s is %s - a comparison or copy then works on the encrypted blob instead of the attribute value' % (a, bad[1]), file=f['file'], line=line, path=bad[0]['path'])
+            else:
+                r.ok(f['qname'], site, '%d abstract states' % len(hits), file=f['file'], line=line)
+
+
 def r2b_flag_arguments(ctx, prog):
     """Helpers that store key material take the privacy flag of the object they fill as a parameter: at every call site the argument must be the flag that the same
     function checked with haveWrite / handed to CreateObject for the new object (not the flag of another object, e.g. the unwrapping key)."""
@@ -643,12 +720,17 @@ def run(ctx):
     r4_iv(ctx, prog)
     r5_umask(ctx, prog)
     r6_read_diamond(ctx, prog)
+    r6b_attribute_reads(ctx, prog)
     r2b_flag_arguments(ctx, prog)
     r7_default_privacy(ctx, prog)
     r8_reload(ctx, prog)
 
 
 MUTANTS = [
+    dict(name='wrap-template-compares-stored-bytes', rule='C06.R6b', file='src/lib/SoftHSM.cpp', after='// Verify the wrap template attribute',
+         old='\t\t\t\tif (isKeyPrivate &&\n\t\t\t\t    keyAttr.isByteStringAttribute() &&', new='\t\t\t\tif (false &&\n\t\t\t\t    keyAttr.isByteStringAttribute() &&'),
+    dict(name='find-compares-stored-bytes-of-session-objects', rule='C06.R6b', file='src/lib/SoftHSM.cpp', after='CK_RV SoftHSM::C_FindObjectsInit(',
+         old='if (isPrivateObject && attr.getByteStringValue().size() != 0)', new='if (isPrivateObject && (*it)->getBooleanValue(CKA_TOKEN, false) && attr.getByteStringValue().size() != 0)'),
     dict(name='generated-public-key-flag-defaults-private', rule='C06.R7', file='src/lib/SoftHSM.cpp', after='CK_RV SoftHSM::C_GenerateKeyPair',
          old='CK_BBOOL ispublicKeyPrivate = CK_FALSE;', new='CK_BBOOL ispublicKeyPrivate = CK_TRUE;'),
     dict(name='unwrap-ec-key-stored-with-unwrapping-keys-flag', rule='C06.R2b', file='src/lib/SoftHSM.cpp', after='CK_RV SoftHSM::C_UnwrapKey',
